@@ -74,6 +74,11 @@ def main():
                     problems += ["forbidden token: " + h for h in hits]
                 if tier == "thorough":
                     problems += C.leanchecker(P.LEAN_TARGETS)
+                if getattr(P, "PANIC_FILES", None):
+                    d = C.panic_site_diff(P.PANIC_FILES)
+                    if d:
+                        problems.append("panic-site inventory differs from the ledger the models account for "
+                                        "(tools/panic_ledger.txt): " + "; ".join(d[:8]))
             else:
                 thms = C.prop_theorems(pid)
                 obligations = len(thms)
